@@ -81,7 +81,20 @@ def match(tmpl, term, env, path="", trace=None):
     return "%s: unknown template node %s" % (path, k)
 
 
+def _stream_writer(fb, fn, depth=0):
+    """private crypt helper that (transitively) creates the compound file / its streams"""
+    b = fb.mir.get(fn)
+    if not b or depth > 2 or not fn.startswith("helper::crypt::") or b.get("vis") == "pub":
+        return False
+    return any(t.get("fn") == "cfb::create" or t.get("fn", "").endswith("create_stream") or _stream_writer(fb, t.get("fn", ""), depth + 1) for _, t in fb.calls_in(b))
+
+
 def find_encrypt(fb):
+    """The pub function of helper::crypt that creates the compound file - itself, or through the private function(s) it
+    hands the finished buffers to."""
+    for d, b in sorted(fb.mir.items()):
+        if b["kind"] == "Fn" and d.startswith("helper::crypt::") and b.get("vis") == "pub" and any(t.get("fn") == "cfb::create" or _stream_writer(fb, t.get("fn", "")) for _, t in fb.calls_in(b)):
+            return d
     for d, b in fb.mir.items():
         if b["kind"] == "Fn" and d.startswith("helper::crypt::") and any(t.get("fn") == "cfb::create" for _, t in fb.calls_in(b)):
             return d
@@ -134,7 +147,8 @@ def rule_encrypt(chk, fb):
         return
     b = fb.mir[d]
     chk.touch(d)
-    it = Interp(fb, inline=lambda fn: False)
+    # the private helpers that only write the finished buffers into the compound file are looked into
+    it = Interp(fb, inline=lambda fn: _stream_writer(fb, fn))
     it.impure = lambda fn: fb.mir.get(fn) is not None and any("getrandom" in t.get("fn", "") for _, t in fb.calls_in(fb.mir[fn]))
     try:
         paths = list(it.run(d, [("arg", i + 1) for i in range(b["argc"])]))
